@@ -127,10 +127,17 @@ PROPS.update({
              "time out (25 ms deadline), return null / a number, emit an unserialisable value, native actions failing with and "
              "without a partial Execution, states with nil bindings and permanent keys, unknown nodes, uncompiled specs. "
              "Compared: crash/hang/normal, error class, and wherever the model ends a stride at an error-carrying state the "
-             "implementation's state. non-trivial = a failing action, an error, or nil bindings.",
+             "implementation's state. non-trivial = a failing action, an error, or nil bindings. Component total: specification "
+             "documents (JSON and YAML text, mutated: null nodes/branching/branches, wrong types, unknown interpreters and targets) "
+             "loaded, compiled and walked from every node; free-form scripts against the whole environment object of the extended "
+             "interpreter (_.out/_.match/_.cronNext with junk arguments, throws, unbounded recursion, redefined members) as actions "
+             "and guards: returned normally, failures surfaced.",
         assumptions=[],
         runs=[step_run("c07", "c07_step_mismatches", "c07_step_violations"),
-              walk_run("c07", "c07_walk_mismatches", "c07_walk_violations", "c07_nontrivial")],
+              walk_run("c07", "c07_walk_mismatches", "c07_walk_violations", "c07_nontrivial"),
+              dict(component="total", require="Corr.TotalCorr", require_vo="Corr/TotalCorr.vo",
+                   n=dict(quick=400, thorough=6000), shard=2000, opts=dict(mode="c07"),
+                   evals=dict(M="total_no_mismatches", V="total_violations"))],
     ),
     "C08": dict(
         level="proof", trusted=ENGINE_TRUSTED,
